@@ -1180,6 +1180,42 @@ def ser_stream(ctx, rng, n0):
     return n
 
 
+def emptied_stream(ctx, rng, n0):
+    """deterministic, every run: a block-diagonal grid (plus vectors whose only entry sits in one ID of the other
+    axis), so that requests are GUARANTEED to leave other-axis vectors all-zero; without metadata, with metadata
+    on exactly one axis, on both; both axes; every reader and the click command on HDF5 and JSON.  The documented
+    variants drop those vectors, the metadata-free variant and the JSON slicer keep them."""
+    n = n0
+    obs = ["O1", "O2", "O3", "O4", "O5"]
+    samp = ["S1", "S2", "S3", "S4", "S5"]
+    rows = [[1, 2, 0, 0, 0], [3, 0, 0, 0, 0], [0, 0, 4, 5, 0], [0, 0, 0, 6, 0], [0, 0, 0, 0, 7]]
+    omd = [{"k": "vo%d" % i} for i in range(5)]
+    smd = [{"k": "vs%d" % j} for j in range(5)]
+    reqs = [("sample", ["S2", "S1"]), ("sample", ["S3"]), ("sample", ["S5"]), ("sample", ["S4", "S1"]),
+            ("sample", ["S2"]), ("observation", ["O2", "O1"]), ("observation", ["O5"]), ("observation", ["O3"]),
+            ("observation", ["O4", "O2"])]
+    for j, (o, sm, ttype) in enumerate(((None, None, "OTU table"), (None, None, None), (omd, None, "OTU table"),
+                                        (None, smd, None), (omd, smd, "Pathway table"))):
+        n += 1
+        spec = {"obs": obs, "samp": samp, "rows": [[float(v) for v in r] for r in rows], "omd": o, "smd": sm,
+                "type": ttype}
+        fx = Fixture(spec, ["dense", "csc", "csr", "coo", "lil"][j], "x", n)
+        tags = ["emptied-vectors", "md=%s%s" % ("o" if o else "-", "s" if sm else "-")]
+        try:
+            for k, (axis, ids) in enumerate(reqs):
+                for variant in ("h5", "h5nomd", "parseh5", "cmdh5", "jsonparse"):
+                    check_case(ctx, fx, variant, ids, axis, tags=tags)
+                check_case(ctx, fx, "cmdjson", ids, axis, ser=(MAIN_SERS + ["direct_io"])[(j + k) % 5], tags=tags)
+                if (j + k) % 2 == 0:
+                    check_case(ctx, fx, "cmdh5", ids, axis, cli=True, deco=IDS_DECOS[k % 6], tags=tags + ["cli"])
+                    check_case(ctx, fx, "cmdjson", ids, axis, cli=True, deco=IDS_DECOS[(k + 1) % 6],
+                               ser=(MAIN_SERS + ["direct_io"])[k % 5], tags=tags + ["cli"])
+        finally:
+            fx.close()
+    ctx.count("stream=emptied-vectors")
+    return n
+
+
 def cli_stream(ctx, rng, n0):
     """the real click sub-command with an IDs FILE: IDs with inner blanks (one a prefix of another up to a blank),
     extra tab-separated columns, trailing blanks, CRLF, comment lines, no final newline; HDF5 and JSON input, both axes"""
@@ -1312,6 +1348,7 @@ def run(ctx):
             n = group_stream(ctx, rng, n)
             n = ser_stream(ctx, rng, n)
             n = cli_stream(ctx, rng, n)
+            n = emptied_stream(ctx, rng, n)
         # 2b. wide axes (9-16 vectors), kept positions spread over the range
         if first or not quick:
             n = wide_stream(ctx, rng, n, quick)
